@@ -1,3 +1,19 @@
 package main
-import ("fmt";"os";"github.com/glycerine/zygomys/v9/zygo")
-func main(){ env:=zygo.NewZlisp(); for _,a:=range os.Args[1:] { v,err:=env.EvalString(a+"\n"); if err!=nil {fmt.Println("ERR:",err)} else {fmt.Println(v.SexpString(nil))} } }
+
+import (
+	"fmt"
+	"github.com/glycerine/zygomys/v9/zygo"
+	"os"
+)
+
+func main() {
+	env := zygo.NewZlisp()
+	for _, a := range os.Args[1:] {
+		v, err := env.EvalString(a + "\n")
+		if err != nil {
+			fmt.Println("ERR:", err)
+		} else {
+			fmt.Println(v.SexpString(nil))
+		}
+	}
+}
